@@ -575,6 +575,20 @@ func crashIndex(r *core.Report, cs *crashScope, floor int) {
 								inner = ast.Unparen(bx.X)
 							}
 						}
+						// the search itself written where the bound goes: x[:strings.IndexByte(x, '}')]
+						if ce, isCall := inner.(*ast.CallExpr); isCall {
+							if f := core.CalleeOf(info, ce); f != nil && f.Pkg() != nil && (f.Pkg().Path() == "strings" || f.Pkg().Path() == "bytes") {
+								switch f.Name() {
+								case "Index", "IndexByte", "IndexAny", "IndexRune", "LastIndex", "LastIndexByte", "LastIndexAny", "IndexFunc":
+									na++
+									name := shortFn(fn)
+									perFn[name+"/searched"]++
+									key := fmt.Sprintf("idx:%s/searched#%d(%s)", name, perFn[name+"/searched"], f.Name())
+									r.Bad(key, p.Pos(n.Pos()), fmt.Sprintf("the result of %s.%s, which is -1 when the text does not contain what is searched for, is used as an index or slice bound as it comes: such text makes this expression panic", f.Pkg().Path(), f.Name()))
+								}
+							}
+							continue
+						}
 						id, isID := inner.(*ast.Ident)
 						if !isID {
 							continue
